@@ -651,6 +651,19 @@ def dyn_rule(model, rep, cg, reach):
                 if not ok:
                     return ok, why
             return True, ''
+        if isinstance(e, ast.Call):
+            callees = [t_ for (t_, _rc) in cg.resolve_call(fi, fi.cls, e) if t_ is not None]
+            if callees:
+                # the name is computed by a function of the package: it derives from literals when every value that function returns does
+                for cf in callees:
+                    rets = [n_.value for n_ in walk_own(cf.node) if isinstance(n_, ast.Return) and n_.value is not None]
+                    for r_ in rets:
+                        ok, why = derives(cf, r_, depth + 1, seen)
+                        if not ok:
+                            raise AnalysisError('UNDECIDED: the attribute name %s is computed by %s, whose result (%s) cannot be traced to literals by this rule (%s)' % (t, cf.qual, src(r_)[:60], why))
+                    if not rets:
+                        return False, '%s returns nothing' % cf.qual
+                return True, ''
         return False, 'attribute name %s is computed from something other than literals, class names and field names' % t
 
     n = 0
